@@ -1853,6 +1853,19 @@ def generate_num(repo):
         text, lty = FMT[key]
         out.append(f"/-- `String r; r.printf(\"{key[0]}\", value); return r;` on the fresh String (capacity `printfCap`) -/\n"
                    f"def {name} (v : {lty}) : List Nat := printf printfCap ({text})\n")
+    CTYPE = {"isalnum": "cIsAlnum", "isalpha": "cIsAlpha", "isdigit": "cIsDigit", "islower": "cIsLower", "isprint": "cIsPrint",
+             "ispunct": "cIsPunct", "isupper": "cIsUpper", "isxdigit": "cIsXDigit"}
+    out.append("\n/-! the `<cctype>` wrappers: `bool String::isX(char c) { return isx((uchar&)c) != 0; }` (the byte value is handed to libc) -/\n")
+    for name in ("isAlphanumeric", "isAlpha", "isDigit", "isLowerCase", "isPrint", "isPunct", "isUpperCase", "isHexDigit"):
+        rx = (r"bool\s+String::" + name + r"\s*\(\s*char\s+(?P<c>\w+)\s*\)\s*\{\s*return\s+(?P<fn>\w+)\s*\(\s*"
+              r"(?:\(\s*(?:uchar|unsigned\s+char)\s*&?\s*\)\s*(?P=c))\s*\)\s*!=\s*0\s*;\s*\}")
+        ms = list(re.finditer(rx, src))
+        if len(ms) != 1:
+            raise TranslateError(f"String::{name}(char): expected `{{ return <cctype function>((uchar&)c) != 0; }}`, found {len(ms)} such definitions")
+        fn = ms[0].group("fn")
+        if fn not in CTYPE:
+            raise TranslateError(f"String::{name}: call of {fn} is not translated")
+        out.append("/-- `" + re.sub(r"\s+", " ", ms[0].group(0)) + "` -/\n" + f"def {name} (b : Nat) : Bool := {CTYPE[fn]} b\n")
     out.append("\nend Nstd.Generated.CodecNum\n")
     return "".join(out)
 
